@@ -60,8 +60,10 @@ pub fn taken_as_is(kind: Pinned, v: &[u8; 32]) -> bool {
     let draws = |val: &[u8; 32]| -> usize {
         use std::sync::mpsc::{channel, Receiver, Sender};
         type Chan = (Sender<(Pinned, [u8; 32])>, Receiver<usize>);
-        static PROBER: std::sync::Mutex<Option<Chan>> = std::sync::Mutex::new(None);
-        let mut g = PROBER.lock().unwrap();
+        // eight prober threads, picked by the value's first bytes (each serves one request at a time)
+        static PROBERS: [std::sync::Mutex<Option<Chan>>; 8] = [const { std::sync::Mutex::new(None) }; 8];
+        let slot = (val[0] as usize ^ val[5] as usize ^ val[17] as usize) % 8;
+        let mut g = PROBERS[slot].lock().unwrap();
         let ch = g.get_or_insert_with(|| {
             let (tx, rx) = channel::<(Pinned, [u8; 32])>();
             let (rtx, rrx) = channel::<usize>();
